@@ -111,6 +111,7 @@ class NetSim:
         t0 = self.s.now
         tb, _ = self.snapshot()
         wasconn = o.node_address != 0o4444
+        nlog0 = len(self.air.log)
         _, a0 = self.snapshot()
         addr0 = o.node_address
         exc, r = "none", None
@@ -124,6 +125,7 @@ class NetSim:
         res = -999 if r is None else (int(r) if not isinstance(r, bool) else (1 if r else 0))
         self.ev.append(dict(k="mesh", op=op, n=name, id=getattr(o, "node_id", -1), arg=arg, res=res, isbool=isinstance(r, bool),
                             exc=exc, t0=t0 // 1000, t=self.s.now // 1000, timeout_ms=timeout_ms, table_before=tb, table=table, wasconn=wasconn, addrs_before=a0, addr_before=addr0,
+                            dups=sum(1 for p in self.air.log[nlog0:] for x in p["rx"] if x[0] == name and x[2] == "dup"),
                             addrs=addrs, proj=self.proj(self.chips[name]), addr=o.node_address, lvl=o.multicast_level))
         self.drain(name)
         return r
@@ -179,6 +181,8 @@ class NetSim:
                         nxt = sc[0][0] if sc else s.now + 20_000_000
                         s.park(lambda: bool(chip.rx) or self.stop, max(s.now + 1000, min(nxt, s.now + 20_000_000)))
                     continue
+                if self.turn < len(self.jobs) and callable(self.jobs[self.turn]["n"]) and self._quiescent(name):
+                    self.jobs[self.turn]["n"] = self.jobs[self.turn]["n"](self)      # node chosen from the state reached
                 if self.turn < len(self.jobs) and self.jobs[self.turn]["n"] == name and self._quiescent(name):
                     job = self.jobs[self.turn]
                     if self.lazy_drain:      # everything the previous job delivered is read now, at quiescence
@@ -206,7 +210,7 @@ class NetSim:
                 if chip.rx:
                     continue
                 # idle: block until the radio has something, or it may be this node's turn
-                mine = self.turn < len(self.jobs) and self.jobs[self.turn]["n"] == name
+                mine = self.turn < len(self.jobs) and (self.jobs[self.turn]["n"] == name or callable(self.jobs[self.turn]["n"]))
                 until = s.now + (2_000_000 if mine or self.turn >= len(self.jobs) else 50_000_000)
                 s.park(lambda: bool(chip.rx) or self.stop, until)
         return f
